@@ -1,7 +1,9 @@
 package vc
 
 import (
+	"fmt"
 	"go/types"
+	"os"
 	"sort"
 	"strings"
 )
@@ -25,6 +27,14 @@ type keepRec struct {
 // guardedKeeps lists the cells protected by the exclusively held locks of st.
 func (f *FnVC) guardedKeeps(st *State, skipComps map[string]bool) []keepRec {
 	var out []keepRec
+	if os.Getenv("GOVC_DEBUG") != "" {
+		var ks []string
+		for k := range skipComps {
+			ks = append(ks, k)
+		}
+		sort.Strings(ks)
+		fmt.Fprintf(os.Stderr, "guardedKeeps in %s: held=%d skip=%v\n", f.Short, len(st.HeldW), ks)
+	}
 	for _, h := range st.HeldW {
 		gi := f.E.guards[h.sname]
 		if gi == nil {
